@@ -189,8 +189,9 @@ def make_provider_class():
 
     def GetServers(self):
       if self.raise_once:
+        exc = self.raise_once if isinstance(self.raise_once, BaseException) else Exception('server set unavailable')
         self.raise_once = False
-        raise Exception('server set unavailable')
+        raise exc
       if self.gate is not None:
         self.gate.wait()
       return list(self.members)
